@@ -27,6 +27,10 @@ from .oracles.paraxial import PSys
 INF = float('inf')
 
 
+class GeneratorExhausted(RuntimeError):
+    """The constraint-based sampler found no admissible lens for the requested class (the case is skipped)."""
+
+
 def fnum(x):
     if isinstance(x, str):
         return {'inf': INF, '-inf': -INF, 'nan': float('nan')}[x]
@@ -206,7 +210,7 @@ def gen_axial(rng, nsurf=None, mirrors_p=0.0, conic_p=0.3, asphere_p=0.0, finite
               glass_p=0.0, stop='any', obj_medium_p=0.0, ap_kinds=('EPD', 'imageFNO', 'objectNA'),
               field_types=('angle', 'object_height'), nwl=(1, 3), image='paraxial',
               max_field_deg=12.0, speed=(3.0, 12.0), immersed_p=0.0, neg_power_p=0.15,
-              semi=None, max_tries=200):
+              semi=None, max_tries=1500):
     """Random axially symmetric lens whose paraxial rays stay well inside every surface.
 
     Constraint-based: candidates are evaluated with the ABCD oracle and rejected when
@@ -319,7 +323,7 @@ def gen_axial(rng, nsurf=None, mirrors_p=0.0, conic_p=0.3, asphere_p=0.0, finite
         bfd = -ya[-2] / ua[-2]          # from the last optical vertex along z
         lastt = None
         sgn_img = sign
-        if image == 'paraxial' and np.isfinite(bfd) and bfd * sgn_img > 0.3 * a and abs(bfd) < 400 * a:
+        if image in ('paraxial', 'paraxial_only') and np.isfinite(bfd) and bfd * sgn_img > 0.3 * a and abs(bfd) < 400 * a:
             lastt = float(bfd)
         else:
             if image == 'paraxial_only':
@@ -366,7 +370,7 @@ def gen_axial(rng, nsurf=None, mirrors_p=0.0, conic_p=0.3, asphere_p=0.0, finite
                     stop=('first' if si == 0 else 'last' if si == K - 1 else 'interior'),
                     ap=apk, field=ft, K=K)
         return spec, info
-    raise RuntimeError('lens generator exhausted its attempts')
+    raise GeneratorExhausted('lens generator exhausted its attempts')
 
 
 def epd_of(spec, P=None):
